@@ -41,8 +41,8 @@ import (
 type SingleCase struct {
 	Adapter string `json:"adapter"` // pullid | metadata | hail | publication | consumable | stock
 	Level   string `json:"level"`   // model | server
-	Park    string `json:"park"`    // "" | icpt | yield
-	When    string `json:"when"`    // at-return | after-seed
+	Park    string `json:"park"`    // "" | icpt | yield | listen (window.go: the subscribing call itself, between snapshot and Listen)
+	When    string `json:"when"`    // at-return | after-seed | in-call (park=listen)
 	Action  string `json:"action"`  // del | cancel
 	Pre     int    `json:"pre"`     // updates of the item before the action, inside the window
 	BP      bool   `json:"bp"`
@@ -241,6 +241,9 @@ func singleScenarios(boundMs int, thorough bool) []Scenario {
 }
 
 func runSingle(sc Scenario, drv *lib.Driver) (out Outcome) {
+	if sc.Single.Park == "listen" {
+		return runListen(sc, drv)
+	}
 	o := &out
 	c := sc.Single
 	bound := time.Duration(sc.BoundMs) * time.Millisecond
